@@ -126,11 +126,63 @@ def large_systems(chk, classes):
                     bad("exception", "%r" % e)
 
 
+def nonlinear_models(chk):
+    """The generic losses take the model as user-supplied functions; nothing makes it linear.  With a polynomial model the
+    second-order terms of the Hessians are non-zero: value = defining formula, gradient / Hessian = derivatives of that formula
+    (central differences of the formula evaluated in numpy), identity and custom weights."""
+    from quara.loss_function.weighted_probability_based_squared_error import WeightedProbabilityBasedSquaredError
+    from quara.loss_function.weighted_relative_entropy import WeightedRelativeEntropy
+    P = [lambda v: np.array([v[0] ** 2, v[1] * v[2], 1 - v[0] ** 2 - v[1] * v[2]]),
+         lambda v: np.array([(v[0] + v[1]) ** 2 / 4, v[2] ** 2, 1 - (v[0] + v[1]) ** 2 / 4 - v[2] ** 2])]
+
+    def num_jac(f, v, h=1e-6):
+        return np.stack([(f(v + h * e) - f(v - h * e)) / (2 * h) for e in np.eye(len(v))], axis=-1)
+    G = [lambda al, v, x=x: num_jac(P[x], np.asarray(v, dtype=float))[:, al] for x in range(2)]
+    # exact second derivatives of the polynomials
+    H0 = np.zeros((3, 3, 3)); H0[0, 0] = [2, 0, -2]; H0[1, 2] = H0[2, 1] = [0, 1, -1]
+    H1 = np.zeros((3, 3, 3)); H1[0, 0] = H1[1, 1] = H1[0, 1] = H1[1, 0] = [0.5, 0, -0.5]; H1[2, 2] = [0, 2, -2]
+    HS = [lambda al, be, v: H0[al, be].copy(), lambda al, be, v: H1[al, be].copy()]
+    # exact first derivatives (the library is handed exact functions, the finite differences are only the oracle)
+    GE = [lambda al, v: np.array([[2 * v[0], 0, -2 * v[0]], [0, v[2], -v[2]], [0, v[1], -v[1]]], dtype=float)[al],
+          lambda al, v: np.array([[(v[0] + v[1]) / 2, 0, -(v[0] + v[1]) / 2], [(v[0] + v[1]) / 2, 0, -(v[0] + v[1]) / 2], [0, 2 * v[2], -2 * v[2]]], dtype=float)[al]]
+    qs = [np.array([0.5, 0.0, 0.5]), np.array([0.2, 0.3, 0.5])]
+    Ws = [np.array([[2.0, 0.5, 0.0], [0.5, 1.0, -0.3], [0.0, -0.3, 3.0]]), np.array([[1.5, -0.4, 0.2], [-0.4, 0.7, 0.1], [0.2, 0.1, 2.5]])]
+    wre = [1.0, 2.5]
+    for v in (np.array([0.6, 0.5, 0.4]), np.array([0.3, 0.7, 0.2]), np.array([0.8, 0.45, 0.3])):
+        for fam, mode in (("se", "identity"), ("se", "custom"), ("re", "identity"), ("re", "custom")):
+            chk.count(1, ("nonlinear", fam, mode, tuple(v)))
+
+            def bad(clause, msg):
+                chk.violation("nonlinear:%s:%s:%s" % (clause, fam, mode), "%s at %s" % (msg, v), dict(family=fam, mode=mode, point=list(v)))
+            if fam == "se":
+                W = Ws if mode == "custom" else [np.eye(3), np.eye(3)]
+                formula = lambda u: sum((P[x](u) - qs[x]) @ W[x] @ (P[x](u) - qs[x]) for x in range(2))
+                loss = WeightedProbabilityBasedSquaredError(3, P, GE, HS, [q.copy() for q in qs], [w.copy() for w in Ws] if mode == "custom" else None)
+            else:
+                w = wre if mode == "custom" else [1.0, 1.0]
+                formula = lambda u: sum(w[x] * sum(qs[x][i] * np.log(qs[x][i] / P[x](u)[i]) for i in range(3) if qs[x][i] > 0) for x in range(2))
+                loss = WeightedRelativeEntropy(3, P, GE, HS, [q.copy() for q in qs], list(wre) if mode == "custom" else None)
+            try:
+                val, grad, hess = float(loss.value(v.copy())), np.asarray(loss.gradient(v.copy()), dtype=float), np.asarray(loss.hessian(v.copy()), dtype=float)
+            except Exception as e:
+                bad("exception", "%r" % e)
+                continue
+            g_fd = num_jac(lambda u: np.array([formula(u)]), v, 1e-6)[0]
+            h_fd = num_jac(lambda u: num_jac(lambda t_: np.array([formula(t_)]), u, 1e-4)[0], v, 1e-4)
+            if abs(val - formula(v)) > 1e-10 * (1 + abs(val)):
+                bad("value", "value %r, defining formula %r" % (val, formula(v)))
+            if not np.allclose(grad, g_fd, rtol=1e-5, atol=1e-6):
+                bad("gradient", "gradient %s, derivative of the defining formula %s" % (np.round(grad, 6), np.round(g_fd, 6)))
+            if not np.allclose(hess, h_fd, rtol=1e-3, atol=1e-4):
+                bad("hessian", "Hessian differs from the second derivative of the defining formula (max dev %.3g)" % float(np.max(np.abs(hess - h_fd))))
+
+
 def run(chk):
     t = chk.tier
     r = chk.tlc("mc/MC_C12", "mc/MC_C12_%s.cfg" % t, workers=16, label="MC_C12 " + t, timeout=7000)
     classes = loss_classes()
     large_systems(chk, classes)
+    nonlinear_models(chk)
     cache = {}
     reused = {}
     n_re = 0
